@@ -104,6 +104,8 @@ def gen(r):
                 pm.append({"x": 0.25 + 0.02 * m, "y": 0.2, "w": 0.5, "h": 0.55, "pts": [], "g": [0.1, 0.1, 0.9, 0.9, 0.4]})
         glyphs[r.randrange(len(glyphs))].insert(0, {"kind": "rect", "fill": "solid", "col": "#%06x" % r.randint(0, 0xFFFFFF), "col2": "#000000", "op": 1.0, "params": pm})
     common_glyph = r.randrange(nglyphs) if (nglyphs >= 2 and r.random() < 0.3) else None
+    if common_glyph is not None:
+        names = ["bold", "thin", "regular", "wide"][:nm]  # directories sorting on either side of "common"
     return {"common_glyph": common_glyph, "positions": positions, "axes": axes, "locations": locations, "same_leaf_dirs": same_leaf_dirs, "names": names, "edit_master": edit_master, "default": default, "vb": vb, "upem": upem, "asc": asc, "desc": desc, "reuse": reuse, "glyphs": glyphs}
 
 
@@ -179,6 +181,9 @@ def run_case(case):
         ctx = {"positions": spec["positions"], "default": spec["default"], "reuse": spec["reuse"], "upem": spec["upem"]}
         if rcode != 0:
             mech = None
+            if spec["reuse"] and spec.get("common_glyph") is not None and ("inconsistent formats between masters" in out or "fonts contains incompatible glyphs" in out):
+                # known finding F23: which glyph donates a shared outline follows each master's own source order
+                mech = "F23-vf-reuse-donor-follows-per-master-source-order"
             res["violations"].append(dict(ctx, what=f"variable build failed (exit {rcode}) although the masters are structurally compatible", output=out[:3000], mechanism=mech, sources=[svg_for(spec, 0, m) for m in range(len(spec["positions"]))]))
             return res
         vf = TTFont(str(root / "build" / "VF.ttf"), lazy=False)
